@@ -419,7 +419,9 @@ class C12:
                  32768, 49152, 65536, 65537, 131072, 2 ** 20, 2 ** 20 + 1, 2 ** 24, 2 ** 26, 1, 2, 0, -14, -16384]
         rvals += [rng.randint(1, 2 ** 20) for _ in range(20 if tier == "quick" else 200)]
         rvals += [(1 << rng.randint(5, 26)) + rng.choice([0, 0, 1, -1]) for _ in range(20 if tier == "quick" else 200)]
-        rstrs = ["abc", "", "²", "14.0", " 15", "+16", "016", "١٤", "1e5"]
+        rstrs = ["abc", "", "²", "14.0", " 15", "+16", "016", "١٤", "1e5",
+                 # words a configuration parser gives a meaning of their own
+                 "true", "false", "True", "FALSE", "yes", "no", "on", "off", "none", "None", "null", "auto", "default"]
         for v in rvals:
             for route in ("TorrentFile", "Assembler2", "Assembler3", "cli1", "cli2", "config"):
                 if rng.random() < (0.45 if tier == "quick" else 0.8):
@@ -819,7 +821,7 @@ class C20:
             tree = gen.gen_tree(rng, pl, tier, layout="single", maxp=3, ascii_names=True)
         else:
             tree = gen.gen_tree(rng, pl, tier, layout=rng.choice(["flat", "nested", "empties"]), maxp=3)
-        return {"opts": o, "tree": tree, "out": rng.choice([None, "file", "file", "dir"]),
+        return {"opts": o, "tree": tree, "out": rng.choice([None, "file", "file", "dir", "inside"]),
                 "pos": rng.choice(["first", "middle", "last", "swallowed", "swallowed", "implicit"]),
                 "cmd": None, "order_seed": rng.randrange(1 << 30),
                 "flagnames": {"announce": rng.choice(["-a", "--announce", "--tracker"]),
@@ -856,7 +858,12 @@ class C20:
             if case["out"] is None:
                 return None, os.path.join(sub, tree["name"] + ".torrent")
             os.makedirs(os.path.join(sub, "o"), exist_ok=True)
-            if case["out"] == "file":
+            if case["out"] == "inside" and os.path.isdir(root):
+                # a new file INSIDE the content directory: it is not part of the payload on any route
+                p = os.path.join(root, "zz saved.torrent")
+                counters["out_inside_content_cases"] = 1
+                return p, p
+            if case["out"] in ("file", "inside"):
                 p = os.path.join(sub, "o", "x.torrent")
                 return p, p
             return os.path.join(sub, "o") + "/", os.path.join(sub, "o", tree["name"] + ".torrent")
@@ -947,7 +954,7 @@ class C20:
                 continue
             with open(expect, "rb") as fd:
                 raws[route] = fd.read()
-            if expect == os.path.join(base, tree["name"] + ".torrent"):
+            if expect == os.path.join(base, tree["name"] + ".torrent") or os.path.dirname(expect) == root:
                 os.remove(expect)
         if case["out"] == "file":
             counters["out_file_cases"] = 1
